@@ -26,6 +26,12 @@ type treeNode struct {
 
 // genTree builds a deterministic tree description.
 func genTree(rng *rand.Rand, maxDepth, fan int) []treeNode {
+	return genTreeOpt(rng, maxDepth, fan, false)
+}
+
+// genTreeOpt: dotDirs adds hidden folders that contain visible entries (their entries count and are sent,
+// the hidden folder itself is not).
+func genTreeOpt(rng *rand.Rand, maxDepth, fan int, dotDirs bool) []treeNode {
 	var out []treeNode
 	var rec func(prefix string, depth int)
 	n := 0
@@ -42,6 +48,10 @@ func genTree(rng *rand.Rand, maxDepth, fan int) []treeNode {
 			case r < 3 && depth < maxDepth:
 				out = append(out, treeNode{Rel: rel, Dir: true})
 				rec(rel, depth+1)
+			case r == 3 && dotDirs && depth < maxDepth && rng.Intn(2) == 0:
+				hid := prefix + "/"[:min(1, len(prefix))] + "." + name
+				out = append(out, treeNode{Rel: hid, Dir: true, Dot: true})
+				rec(hid, depth+1)
 			case r == 3:
 				out = append(out, treeNode{Rel: prefix + "/"[:min(1, len(prefix))] + "." + name, Data: GenData(int64(n), rng.Intn(50)), Dot: true})
 			default:
@@ -98,7 +108,7 @@ func genC10(rng *rand.Rand, c *Case) {
 	c.Cfg["fan"] = 1 + rng.Intn(5)
 	c.Cfg["mode"] = rng.Intn(3) // 0 download, 1 upload, 2 upload then download (round trip)
 	c.Cfg["choiceseed"] = rng.Intn(1 << 30)
-	c.Cfg["cut"] = rng.Intn(4) / 3
+	c.Cfg["cut"] = rng.Intn(2)
 }
 
 // folderItemHeader encodes one folder-upload item header.
@@ -385,7 +395,7 @@ func compareTree(w *World, root string, nodes []treeNode, sig string) {
 func runC10(w *World) {
 	cfg := w.Case.Cfg
 	w.AddAccount("guest", "Guest", "", rp.AllAccess().With(rp.PNoAgreement))
-	nodes := genTree(rand.New(rand.NewSource(int64(cfg["treeseed"]))), cfg["depth"], cfg["fan"])
+	nodes := genTreeOpt(rand.New(rand.NewSource(int64(cfg["treeseed"]))), cfg["depth"], cfg["fan"], cfg["mode"] == 0)
 	crng := rand.New(rand.NewSource(int64(cfg["choiceseed"])))
 	mode := cfg["mode"]
 	if mode == 0 {
